@@ -61,6 +61,7 @@ type Term struct {
 	c2   int
 	name string
 	kz   uint64 // bits known to be zero (bit-vectors only)
+	ko   uint64 // bits known to be one
 }
 
 // umax is an upper bound on the unsigned value derived from the known-zero bits.
@@ -105,8 +106,60 @@ func (b *TB) mk(t *Term) *Term {
 	b.tab[k] = t
 	if t.w > 0 {
 		t.kz = knownZero(t)
+		t.ko = knownOne(t)
+		if t.op != OpConst && t.op != OpVar && (t.kz|t.ko)&mask(t.w) == mask(t.w) {
+			// every bit is known: the term is a constant
+			c := b.Const(t.w, t.ko)
+			b.tab[k] = c
+			return c
+		}
 	}
 	return t
+}
+
+func knownOne(t *Term) uint64 {
+	m := mask(t.w)
+	a := func(i int) *Term { return t.args[i] }
+	switch t.op {
+	case OpConst:
+		return t.c & m
+	case OpBAnd:
+		return a(0).ko & a(1).ko
+	case OpBOr:
+		return (a(0).ko | a(1).ko) & m
+	case OpBXor:
+		return ((a(0).ko & a(1).kz) | (a(0).kz & a(1).ko)) & m
+	case OpBNot:
+		return a(0).kz & m
+	case OpIte:
+		return a(1).ko & a(2).ko
+	case OpZExt:
+		return a(0).ko
+	case OpExtract:
+		return (a(0).ko >> uint(t.c2)) & m
+	case OpConcat:
+		return (a(0).ko<<uint(a(1).w) | a(1).ko) & m
+	case OpShl:
+		if a(1).IsConst() && a(1).c < uint64(t.w) {
+			return (a(0).ko << uint(a(1).c)) & m
+		}
+	case OpLShr:
+		if a(1).IsConst() && a(1).c < uint64(t.w) {
+			return (a(0).ko >> uint(a(1).c)) & m
+		}
+	case OpAdd:
+		// low bits where both operands are fully known and no carry can enter: add of known low parts
+		n := min(bits.TrailingZeros64(^(a(0).kz|a(0).ko)), bits.TrailingZeros64(^(a(1).kz|a(1).ko)))
+		if n > t.w {
+			n = t.w
+		}
+		if n > 0 {
+			lm := lowMask(n)
+			sum := (a(0).ko & lm) + (a(1).ko & lm)
+			return sum & lm
+		}
+	}
+	return 0
 }
 
 func lowMask(n int) uint64 {
@@ -132,8 +185,12 @@ func knownZero(t *Term) uint64 {
 		return ^t.c & m
 	case OpBAnd:
 		return (a(0).kz | a(1).kz) & m
-	case OpBOr, OpBXor:
+	case OpBOr:
 		return a(0).kz & a(1).kz
+	case OpBXor:
+		return ((a(0).kz & a(1).kz) | (a(0).ko & a(1).ko)) & m
+	case OpBNot:
+		return a(0).ko & m
 	case OpIte:
 		return a(1).kz & a(2).kz
 	case OpZExt:
@@ -162,7 +219,18 @@ func knownZero(t *Term) uint64 {
 			kz = boundKZ(s, t.w)
 		}
 		tz := min(bits.TrailingZeros64(^a(0).kz), bits.TrailingZeros64(^a(1).kz))
-		return (kz | lowMask(tz)) & m
+		// fully known low parts: exact low bits of the sum
+		n := min(bits.TrailingZeros64(^(a(0).kz|a(0).ko)), bits.TrailingZeros64(^(a(1).kz|a(1).ko)))
+		if n > t.w {
+			n = t.w
+		}
+		low := uint64(0)
+		if n > 0 {
+			lm := lowMask(n)
+			sum := ((a(0).ko & lm) + (a(1).ko & lm)) & lm
+			low = ^sum & lm
+		}
+		return (kz | lowMask(tz) | low) & m
 	case OpMul:
 		x, y := a(0).umax(), a(1).umax()
 		hi, lo := bits.Mul64(x, y)
